@@ -23,8 +23,7 @@ Qed.
 Lemma changes_loadC : forall s s', wf s -> loadC s s' -> changes (hist_c s') = changes (hist_c s).
 Proof.
   intros s s' W [K|(D & C & C' & v & D')]; [apply changes_keepC; exact K|].
-  rewrite !hist_c_eq, C', D', D. destruct C as [-> | C]; [reflexivity|].
-  destruct (wf_c_kind s W); congruence.
+  rewrite !hist_c_eq, C', D', D. destruct C as [-> | ->]; reflexivity.
 Qed.
 
 Lemma changes_coll_event : forall s, coll_deleted s = false ->
@@ -54,6 +53,26 @@ Proof.
     destruct (v =? o); intros H; inversion H; auto.
 Qed.
 
+Lemma changes_before_pop : forall s, changes (hist_c (before_pop s)) = changes (hist_c s).
+Proof.
+  intros s. rewrite !hist_c_eq. dstate s. unfold before_pop, mod_c. cbn.
+  destruct cd as [l|], cc; cbn; try reflexivity. rewrite filter_nmemb_self. reflexivity.
+Qed.
+
+Lemma dict_fail : forall k o s s' e, step k o s = (s', Fail e) -> dict_op o = true ->
+  s' = fst (coll_touch s) \/ s' = before_pop (fst (coll_touch s)).
+Proof.
+  intros k o s s' e H DO. destruct o; try discriminate DO; cbn [step] in H;
+    unfold c_pop, c_popitem, c_delkey, c_setdefault, c_update, c_clear in H;
+    destruct (coll_touch s) as [s1 ok]; cbn [fst]; destruct (negb ok); try (inversion H; auto; fail).
+  - destruct (holder o (cur_coll s1)); cbv iota in H; inversion H; auto.
+  - destruct (holder o (cur_coll s1)); cbv iota in H; inversion H; auto.
+  - destruct (last_of (cur_coll s1)); inversion H; auto.
+  - destruct (holder o (cur_coll s1)); inversion H; auto.
+  - destruct (same_key o (cur_coll s1)); inversion H.
+  - destruct (cur_coll s1); inversion H.
+Qed.
+
 Lemma c_other_nofail : forall k o s s' e, wf s -> step k o s = (s', Fail e) ->
   match o with CAdd _ | CReplace _ | CDel | CGet => False | _ => True end.
 Proof.
@@ -76,8 +95,18 @@ Theorem failed_op_keeps_changes : forall k o s s' e, wf s -> step k o s = (s', F
 Proof.
   intros k o s s' e W H ND G.
   assert (S' : s' = fst (step k o s)) by (rewrite H; reflexivity).
+  destruct (dict_op o) eqn:DO.
+  { assert (FR : c_frame s s').
+    { rewrite S'. destruct o; try discriminate DO; cbn [step];
+        [apply c_pop_frame|apply c_pop_frame|apply c_popitem_frame|apply c_delkey_frame
+        |apply c_setdefault_frame|apply c_update_frame|apply c_clear_frame]. }
+    destruct FR as (_ & X & B).
+    split; [apply changes_loadX; exact X|split; [apply changes_keepB; exact B|]].
+    destruct (coll_touch_frame s) as (_ & _ & _ & LC). pose proof (changes_loadC s _ W LC) as E0.
+    destruct (dict_fail k o s s' e H DO) as [-> | ->]; [exact E0|].
+    rewrite changes_before_pop. exact E0. }
   pose proof (c_other_nofail k o s s' e W H) as NF.
-  destruct o; try congruence; try contradiction.
+  destruct o; try congruence; try contradiction; try discriminate DO.
   - (* SetX never fails *) cbn in H. discriminate.
   - (* GetX *) subst s'. cbn [step]. rewrite read_fst. destruct (get_x_frame P_OFF s) as (_ & X & B & C).
     split; [apply changes_loadX; exact X|split; [apply changes_keepB; exact B|apply changes_keepC; exact C]].
@@ -134,4 +163,11 @@ Proof.
     apply (c_other_nofail k CGet s s' Unreachable W E).
   - unfold flush. brk; discriminate.
   - unfold expire. brk; discriminate.
+  - unfold c_pop. pose proof (coll_touch_ok s W) as OK. destruct (coll_touch s) as [s1 ok]. cbn in OK. subst ok. cbn. brk; discriminate.
+  - unfold c_pop. pose proof (coll_touch_ok s W) as OK. destruct (coll_touch s) as [s1 ok]. cbn in OK. subst ok. cbn. brk; discriminate.
+  - unfold c_popitem. pose proof (coll_touch_ok s W) as OK. destruct (coll_touch s) as [s1 ok]. cbn in OK. subst ok. cbn. brk; discriminate.
+  - unfold c_delkey. pose proof (coll_touch_ok s W) as OK. destruct (coll_touch s) as [s1 ok]. cbn in OK. subst ok. cbn. brk; discriminate.
+  - unfold c_setdefault. pose proof (coll_touch_ok s W) as OK. destruct (coll_touch s) as [s1 ok]. cbn in OK. subst ok. cbn. brk; discriminate.
+  - unfold c_update. pose proof (coll_touch_ok s W) as OK. destruct (coll_touch s) as [s1 ok]. cbn in OK. subst ok. cbn. discriminate.
+  - unfold c_clear. pose proof (coll_touch_ok s W) as OK. destruct (coll_touch s) as [s1 ok]. cbn in OK. subst ok. cbn. brk; discriminate.
 Qed.
